@@ -189,6 +189,21 @@ def code_case(case):
         r.v("C01/code-vs-table/%s" % case["method"], "real step == B-series of its own table", case,
             observed=dict(tree=i, order=int(size[i]), code=repr(dY[i]), table=repr(w[i] * h ** size[i]), ratio=float(agree[i])), expected="agree to longdouble rounding")
     r.samples.append(dict(section="code", case=case, components=int(N), max_order_ratio=float(ratio.max()), max_code_vs_table_ratio=float(agree.max())))
+    # the SAME integrator object, second step from an unrelated exact point (t1, y(t1)) -- not the end of its previous step.
+    # The universal ODE is polynomial: a method of order p reproduces y_tau(t1 + h2) exactly for every |tau| <= p from exact data at any t1.
+    if case["via"] == "call" and not tl:
+        t1 = LD(0.5) * np.sign(h); h2 = LD(-0.75) * np.sign(h)
+        y1 = (t1 ** size[:N]) / gam[:N]
+        _, (dT2, dY2) = m(de.DiffRHS(rhs), t1, np.asarray(y1, dtype=LD), {}, h2)
+        want = ((t1 + h2) ** size[:N]) / gam[:N] - y1
+        tol2 = K * U64 * size[:N] * wabs * (LD(2.25) ** size[:N])
+        ratio2 = np.abs(np.asarray(dY2, dtype=LD) - want) / tol2
+        att2 = attained(ratio2, off, p)
+        r.n += N
+        if dT2 != h2 or att2 < p:
+            i, rt = worst(ratio2, off, min(att2 + 1, p))
+            r.v("C01/code-order-reused/%s/attains%d" % (case["method"], att2), "declared order for a step from exact data with a reused integrator object", case,
+                observed=dict(attained=att2, dT=repr(dT2), tree=int(i), ratio_to_rounding_bound=rt), expected=dict(declared=p))
     return r
 
 
